@@ -1,5 +1,8 @@
 # C09 — the render rate limit: generated driver histories against a real Engine,
 # observed windows judged by the gate acceptor (Models/Gate.v) inside Coq.
+# Histories include callers whose context is already over (at a free and at a full
+# gate), contexts that end at a chosen point of Render's own progress, and
+# cancellations that race a release.
 from common import *
 
 OUTCOMES = ["ok", "func_error", "panic"]
@@ -9,64 +12,129 @@ CQ_CLS = {"ok": b"c_ok", "not_found": b"c_not_found", "error": b"c_error",
 CLS_OUTCOME = {"ok": "ok", "not_found": "not_found", "error": "func_error", "exec_panic": "panic"}
 
 
-def history(rng, cap, maxlen, hostile):
-    """A list of driver actions.  [inside]/[waitq] follow what a correct gate would do and
-    only bias the choice (release when somebody is inside, cancel when somebody waits);
-    picks are taken modulo the sets the harness really observes."""
+CTX_KINDS = ["cancelled", "expired", "at"]
+
+# Profiles of generated histories: weights of (start live, start with a context that is over or
+# ends by itself, release, cancel, race, probe), chance to begin with a burst that fills the gate
+# and queues waiters, and how often a picked waiter / leaver is the oldest one.
+PROFILES = {
+    #             live  dead  rel   canc  race  probe  burst
+    "classic":   (0.42, 0.00, 0.32, 0.18, 0.00, 0.08,  0.4),
+    "hostile":   (0.30, 0.12, 0.22, 0.18, 0.10, 0.08,  0.0),
+    "dead_free": (0.10, 0.50, 0.30, 0.00, 0.04, 0.06,  0.0),   # contexts that are over at a gate with free slots
+    "dead_full": (0.12, 0.45, 0.18, 0.08, 0.10, 0.07,  1.0),   # ... at a full gate, slots coming back now and then
+    "race":      (0.36, 0.04, 0.06, 0.04, 0.46, 0.04,  1.0),   # cancellation racing a release, again and again
+    "mixed":     (0.25, 0.25, 0.20, 0.08, 0.16, 0.06,  0.5),
+}
+CONTEXT_PROFILES = ["dead_free", "dead_full", "race", "mixed"]
+
+
+def history(rng, cap, maxlen, profile):
+    """A list of driver actions.  [inside]/[waitq] follow what a correct gate would do (a context
+    that is over at a free slot: the select may go either way, counted as 'entered') and only bias
+    the choice (release when somebody is inside, cancel / race when somebody waits); picks are
+    taken modulo the sets the harness really observes."""
+    w_live, w_dead, w_rel, w_canc, w_race, w_probe, p_burst = PROFILES[profile]
+    biased = profile != "hostile"
     n = rng.randint(3, maxlen)
     acts = []
     inside, waitq = 0, []
 
-    def start():
+    def base(op, **kw):
+        d = {"op": op, "missing": False, "pick": 0, "outcome": ""}
+        d.update(kw)
+        return d
+
+    def start(dead):
         nonlocal inside
         missing = rng.random() < 0.2
-        acts.append({"op": "start", "missing": missing, "pick": 0, "outcome": ""})
+        a = base("start", missing=missing)
+        if dead:
+            a["ctx"] = rng.choice(CTX_KINDS)
+            if a["ctx"] == "at":
+                a["k"] = rng.choice([1, 2, 3, 3, 4, 5])
+        acts.append(a)
+        over = dead and a["ctx"] != "at"
         if cap == 0 or inside < cap:
-            if not missing:
+            if not missing and not (over and rng.random() < 0.5):
                 inside += 1
-        else:
+        elif not over:
             waitq.append("m" if missing else "g")
 
-    if not hostile and cap > 0 and rng.random() < 0.4:
+    def admit():
+        nonlocal inside
+        while waitq and inside < cap:
+            if waitq.pop(0) == "g":
+                inside += 1
+
+    def oldest():
+        return 0 if rng.random() < 0.6 else rng.randrange(8)
+
+    if biased and cap > 0 and rng.random() < p_burst:
         for _ in range(min(n, cap + rng.randint(1, 3))):   # straight to a full gate with waiters
-            start()
+            start(False)
     while len(acts) < n:
-        x = rng.random()
-        if hostile:
-            op = "start" if x < 0.4 else "release" if x < 0.65 else "cancel" if x < 0.9 else "probe"
-        elif x < 0.42 or (inside == 0 and not waitq):
+        x = rng.random() * (w_live + w_dead + w_rel + w_canc + w_race + w_probe)
+        if x < w_live:
             op = "start"
-        elif x < 0.74:
-            op = "release" if inside else "start"
-        elif x < 0.92:
-            op = "cancel" if waitq else "start"
+        elif x < w_live + w_dead:
+            op = "dead"
+        elif x < w_live + w_dead + w_rel:
+            op = "release"
+        elif x < w_live + w_dead + w_rel + w_canc:
+            op = "cancel"
+        elif x < w_live + w_dead + w_rel + w_canc + w_race:
+            op = "race"
         else:
             op = "probe"
-        if op == "start":
-            start()
+        if biased:
+            if inside == 0 and not waitq and op in ("release", "cancel", "race"):
+                op = "dead" if w_dead > w_live else "start"
+            elif op == "release" and not inside:
+                op = "start"
+            elif op == "cancel" and not waitq:
+                op = "start"
+            elif op == "race" and not (waitq and inside):
+                op = "start"          # builds up the queue the next race needs
+        if op in ("start", "dead"):
+            start(op == "dead")
         elif op == "release":
-            acts.append({"op": "release", "missing": False, "pick": rng.randrange(8),
-                         "outcome": rng.choice(OUTCOMES)})
+            acts.append(base("release", pick=rng.randrange(8), outcome=rng.choice(OUTCOMES)))
             if inside:
                 inside -= 1
-                while waitq and inside < cap:
-                    if waitq.pop(0) == "g":
-                        inside += 1
+                admit()
         elif op == "cancel":
-            k = rng.randrange(8)
-            acts.append({"op": "cancel", "missing": False, "pick": k, "outcome": ""})
+            k = oldest()
+            acts.append(base("cancel", pick=k))
             if waitq:
                 waitq.pop(k % len(waitq))
+        elif op == "race":
+            k = oldest()
+            order = rng.choice([0, 0, 1, 1, 1, 2])
+            acts.append(base("race", pick=k, pick2=rng.randrange(8), outcome=rng.choice(OUTCOMES), order=order,
+                             delay_us=0 if order == 0 else rng.choice([0, 1, 2, 5, 10, 20, 40, 80, 150])))
+            if waitq and inside:
+                waitq.pop(k % len(waitq))     # gets the error, or takes the slot: either way off the queue
+                if rng.random() < 0.5:
+                    inside -= 1
+                admit()
+            elif inside:
+                inside -= 1
         else:
-            acts.append({"op": "probe", "missing": False, "pick": 0, "outcome": ""})
+            acts.append(base("probe"))
     return acts
 
 
 def window_events(cap, w, prev_inside, commanded):
     """The window as gate events, in the fixed order documented in Run/Judge_C09.v."""
     ev = []
+    dead_start = set()
     if w["op"] in ("start", "refill"):
-        ev += [b"Start %d" % r for r in w["rids"]]
+        over = w.get("ctx") in ("cancelled", "expired")
+        ev += [b"Start %d %s" % (r, cq_bool(over)) for r in w["rids"]]
+        if over:
+            dead_start = set(w["rids"])
+    ev += [b"CtxEnd %d" % r for r in w["ended"] if r not in dead_start]
     ent = set(w["entered"])
     fin_ids = {f["rid"] for f in w["finished"]}
 
@@ -97,32 +165,51 @@ class C09(Prop):
     prop_module = "Props.C09"
     prop_file = "Props/C09.v"
     coq_targets = ["Props/C09.vo", "Run/Judge_C09.vo"]
-    sizes = {"quick": 150, "thorough": 5000}
+    sizes = {"quick": 200, "thorough": 5000}
     design_ref = "DESIGN.md section 6 C09, Appendix A"
     rule = ("one case = one real Engine with limit N in 0..4 (WithRateLimit, or Engine.Inject of the config value "
             "on an engine built with another limit) and a generated history of <= 25 (thorough <= 40) driver actions: "
-            "start a render (template calling the blocking function gate(id), or a missing template), tell a render "
-            "that is inside to return / fail in a template function / panic, cancel a waiting render's context, probe; "
-            "then drain and a refill probe with N fresh renders; 80% histories biased by a counting model of a correct "
-            "gate (bursts beyond the limit, releases while others wait), 20% unbiased; non-trivial = some render was "
-            "observed waiting, or the limit is disabled and >= 2 renders were inside together; distinct by SHA-1 of the case")
+            "start a render (template calling the blocking function gate(id), or a missing template) with a live "
+            "context, with a context that is ALREADY over (cancelled before the call / deadline in the past) or with "
+            "a context that ends by itself at its k-th use (k in 1..5: Render uses its context 3 times up to the template call, so this is before, in and right after the select, or never); tell a "
+            "render that is inside to return / fail in a template function / panic; cancel a waiting render's context; "
+            "RACE: end a waiting render's context while a render inside is told to leave (both at once, or 0..150 us "
+            "apart in either order; the waiter is the oldest one in 60%); probe; then drain and a refill probe with N "
+            "fresh renders that must all be inside together.  Profiles: 40% classic (bursts beyond the limit, releases "
+            "while others wait), 15% unbiased, 45% context profiles in equal parts - over-contexts at a gate with free "
+            "slots alternating with releases, over-contexts at a full gate, race after race with the queue refilled, "
+            "mixed - so that a slot lost per such event exhausts the limit within one history.  The histories are "
+            "biased by a counting model of a correct gate; non-trivial = some render was observed waiting, or the "
+            "limit is disabled and >= 2 renders were inside together, or a context was over at an enabled gate; "
+            "distinct by SHA-1 of the case")
     trusted = [
-        "the gate is modelled at the level of events Start/Enter/Leave/Cancel per Render call; that a buffered Go "
-        "channel of capacity N admits exactly N pending sends, that select takes a ready case, and that deferred "
-        "functions run on return and on panic is the Go runtime's behaviour: assumed by the model, exercised "
+        "the gate is modelled at the level of events Start(context over?)/CtxEnd/Enter/Leave/Cancel per Render call; "
+        "that a buffered Go channel of capacity N admits exactly N pending sends, that select takes a ready case and "
+        "may take either of two ready cases, that <-ctx.Done() is ready exactly for a context that is over, and that "
+        "deferred functions run on return and on panic is the Go runtime's behaviour: assumed by the model, exercised "
         "(not proved) by the correspondence runs",
         "observation: 'inside' = the template function gate(id) was called and Render has not returned; a render of a "
-        "missing template is seen only by its return; the emitter orders the events of one settle window "
-        "(Leave, Cancel, pass-through, Enter), see Run/Judge_C09.v",
+        "missing template is seen only by its return; 'context over' = the driver cancelled it / started it so, or "
+        "the self-ending context (harness type c09Ctx, a context.Context that cancels itself at its k-th "
+        "Done/Err/Value/Deadline call) has fired; the emitter orders the events of one settle window "
+        "(Start, CtxEnd, Leave, Cancel, pass-through, Enter), see Run/Judge_C09.v",
+        "which of the two ready select cases the runtime takes, and whether a cancellation issued a few microseconds "
+        "around a release lands before or after the hand-over of the slot, is not controlled: the race actions are "
+        "repeated many times per run instead; the self-ending contexts make 'the context ends exactly after the slot "
+        "was obtained' deterministic",
     ]
     assumptions = [
-        "timing words are observed, never proved: a cancelled waiter must return within 500 ms ('promptly'); a render "
-        "that may enter must be seen inside within 200 ms of the driver action, the final refill within 1 s; a machine "
-        "stalled for longer than these bounds would produce a false alarm",
+        "timing words are observed, never proved: a cancelled waiter, and any render whose context is over, must have "
+        "returned (or be inside) within 500 ms ('promptly'); a render that may enter must be seen inside within 200 ms "
+        "of the driver action, the final refill within 1 s; a machine stalled for longer than these bounds would "
+        "produce a false alarm",
         "the Go scheduler eventually runs every runnable goroutine (fairness); which waiting render enters next is left "
         "to the runtime and not constrained by the model",
         "panics of template functions are recovered by the harness around Engine.Render (the engine itself does not "
         "recover them); classes of outcomes are compared, never error texts",
+        "a slot that is taken and never handed back is not visible at the call that loses it; it is observed through "
+        "its consequences in the same history: a render waiting although fewer than N are inside, or the refill "
+        "probe at the end not getting N renders inside",
     ]
     not_yet_proved = []
 
@@ -131,11 +218,20 @@ class C09(Prop):
         cases = []
         for i in range(n):
             cap = i % 5
-            hostile = rng.random() < 0.2
+            x = rng.random()
+            if x < 0.40:
+                profile = "classic"
+            elif x < 0.55:
+                profile = "hostile"
+            else:
+                profile = CONTEXT_PROFILES[(i // 5) % len(CONTEXT_PROFILES)]
+                if cap == 0 and rng.random() < 0.7:
+                    cap = rng.randint(1, 4)       # the gate is what these profiles are about
             via = rng.random() < 0.25
             cases.append({"cap": cap, "via_inject": via,
                           "init": rng.choice([0, 1, 3, 8]) if via else 0,
-                          "actions": history(rng, cap, maxlen, hostile)})
+                          "profile": profile,
+                          "actions": history(rng, cap, maxlen, profile)})
         rng.shuffle(cases)
         return cases
 
@@ -148,6 +244,8 @@ class C09(Prop):
                 commanded[w["rids"][0]] = "not_found"
             elif w["op"] == "release":
                 commanded[w["rids"][0]] = w["outcome"]
+            elif w["op"] == "race":
+                commanded[w["rids"][1]] = w["outcome"]
             elif w["op"] == "drain":
                 for r in w["rids"]:
                     commanded[r] = "ok"
@@ -164,6 +262,8 @@ class C09(Prop):
             evs = window_events(cap, w, prev, commanded)
             prev = set(w["inside"])
             wins.append(b"{| w_events := " + cq_list(evs) +
+                        b"; w_entered := " + cq_list([cq_nat(r) for r in w["entered"]]) +
+                        b"; w_ended := " + cq_list([cq_nat(r) for r in w["ended"]]) +
                         b"; w_inside := " + cq_list([cq_nat(r) for r in w["inside"]]) +
                         b"; w_waiting := " + cq_list([cq_nat(r) for r in w["waiting"]]) +
                         b"; w_returned := " + cq_list([cq_pair(cq_nat(f["rid"]), CQ_CLS.get(f["class"], b"c_other"))
@@ -178,26 +278,51 @@ class C09(Prop):
         ws = obs["windows"]
         if case["cap"] == 0:
             return any(len(w["inside"]) >= 2 for w in ws)
-        return any(w["waiting"] for w in ws)
+        return any(w["waiting"] or w["ended"] for w in ws)
 
     def sample(self, case, obs):
         def act(a):
             if a["op"] == "start":
-                return "start-missing" if a["missing"] else "start"
+                c = a.get("ctx", "")
+                return ("start-missing" if a["missing"] else "start") + \
+                    ("" if not c else "[ctx %s%s]" % (c, (" %d" % a.get("k", 1)) if c == "at" else ""))
             if a["op"] == "release":
                 return "release#%d:%s" % (a["pick"], a["outcome"])
             if a["op"] == "cancel":
                 return "cancel#%d" % a["pick"]
+            if a["op"] == "race":
+                return "race(cancel#%d, release#%d:%s, %s)" % (
+                    a["pick"], a.get("pick2", 0), a["outcome"],
+                    ["at once", "release, %d us, cancel", "cancel, %d us, release"][a.get("order", 0) % 3]
+                    % (() if a.get("order", 0) % 3 == 0 else (a.get("delay_us", 0),)))
             return a["op"]
         return {"limit": case["cap"], "via_inject": case["via_inject"], "init": case["init"],
+                "profile": case.get("profile", ""),
                 "actions": [act(a) for a in case["actions"]],
-                "observed": ["%s%s%s -> returned %s inside %s waiting %s" % (
+                "observed": ["%s%s%s%s -> returned %s inside %s waiting %s%s" % (
                     w["op"], w["rids"], (":" + w["outcome"]) if w.get("outcome") else "",
-                    ["%d:%s" % (f["rid"], f["class"]) for f in w["finished"]], w["inside"], w["waiting"])
+                    (" ctx=" + w["ctx"]) if w.get("ctx") else "",
+                    ["%d:%s" % (f["rid"], f["class"]) for f in w["finished"]], w["inside"], w["waiting"],
+                    (" context over: %s" % w["ended"]) if w["ended"] else "")
                     for w in obs["windows"]],
                 "get_rate_limit": obs["limit"], "refill_ok": obs["refill_ok"]}
 
+    @staticmethod
+    def _chance(case):
+        """Actions whose outcome the Go runtime decides (select between two ready cases, a
+        cancellation a few microseconds around a release)."""
+        return sum(1 for a in case["actions"]
+                   if a["op"] == "race" or (a["op"] == "start" and a.get("ctx") in ("cancelled", "expired")))
+
     def shrink(self, case):
+        # a witness that depends on the runtime's choice needs several attempts to show reliably:
+        # candidates keep at least 6 such actions (or all, if there are fewer)
+        keep = min(self._chance(case), 6)
+        for c in self._shrink(case):
+            if self._chance(c) >= keep:
+                yield c
+
+    def _shrink(self, case):
         acts = case["actions"]
         n = len(acts)
         if case["via_inject"]:
@@ -209,35 +334,74 @@ class C09(Prop):
                     yield dict(case, actions=acts[:i] + acts[i + k:])
             k //= 2
         for i, a in enumerate(acts):
-            if a["op"] == "release" and a["outcome"] != "ok":
-                yield dict(case, actions=acts[:i] + [dict(a, outcome="ok")] + acts[i + 1:])
+            def repl(b):
+                return dict(case, actions=acts[:i] + [b] + acts[i + 1:])
+            if a["op"] in ("release", "race") and a["outcome"] != "ok":
+                yield repl(dict(a, outcome="ok"))
             if a["op"] == "start" and a["missing"]:
-                yield dict(case, actions=acts[:i] + [dict(a, missing=False)] + acts[i + 1:])
+                yield repl(dict(a, missing=False))
+            if a["op"] == "start" and a.get("ctx"):
+                yield repl({k2: v for k2, v in a.items() if k2 not in ("ctx", "k")})
+            if a["op"] == "race":
+                yield repl({"op": "release", "missing": False, "pick": a.get("pick2", 0), "outcome": a["outcome"]})
+                yield repl({"op": "cancel", "missing": False, "pick": a["pick"], "outcome": ""})
 
     def model_expr(self):
         return "(reach (cfg c) (flat_map w_events (wins c)), model_states (Some (gate_init (cfg c))) (wins c))"
 
     def distribution(self, cases, obss):
-        d = {"per_limit": {}, "via_inject": 0, "actions": 0, "renders": 0, "cancelled_while_waiting": 0,
+        d = {"per_limit": {}, "per_profile": {}, "via_inject": 0, "actions": 0, "renders": 0,
+             "cancelled_while_waiting": 0,
+             "started_with_context_over": 0, "context_over_at_free_slot": 0, "context_over_at_full_gate": 0,
+             "context_over_got_error": 0, "context_over_entered": 0,
+             "self_ending_contexts": 0, "self_ending_fired": 0,
+             "races": 0, "race_waiter_got_error": 0, "race_waiter_took_slot": 0,
              "left_ok": 0, "left_not_found": 0, "left_func_error": 0, "left_panic": 0,
              "max_waiting": 0, "windows": 0, "windows_not_settled": 0, "goroutines_left_blocked": 0}
         for c, o in zip(cases, obss):
-            d["per_limit"][str(c["cap"])] = d["per_limit"].get(str(c["cap"]), 0) + 1
+            cap = c["cap"]
+            d["per_limit"][str(cap)] = d["per_limit"].get(str(cap), 0) + 1
+            pr = c.get("profile", "corpus")
+            d["per_profile"][pr] = d["per_profile"].get(pr, 0) + 1
             d["via_inject"] += c["via_inject"]
             d["actions"] += len(c["actions"])
             d["goroutines_left_blocked"] += o.get("leftover", 0)
             commanded, cancels = self._tables(o)
             d["cancelled_while_waiting"] += len(cancels)
+            prev_inside = 0
+            at = set()
             for w in o["windows"]:
                 d["windows"] += 1
                 d["windows_not_settled"] += not w["settled"]
                 d["max_waiting"] = max(d["max_waiting"], len(w["waiting"]))
+                fin = {f["rid"]: f["class"] for f in w["finished"]}
                 if w["op"] in ("start", "refill"):
                     d["renders"] += len(w["rids"])
+                if w["op"] == "start" and w.get("ctx") in ("cancelled", "expired"):
+                    r = w["rids"][0]
+                    d["started_with_context_over"] += 1
+                    if cap > 0:
+                        d["context_over_at_full_gate" if prev_inside >= cap else "context_over_at_free_slot"] += 1
+                    if fin.get(r) == "ctx_error":
+                        d["context_over_got_error"] += 1
+                    elif r in w["entered"] or r in fin:
+                        d["context_over_entered"] += 1
+                if w["op"] == "start" and w.get("ctx") == "at":
+                    d["self_ending_contexts"] += 1
+                    at.add(w["rids"][0])
+                d["self_ending_fired"] += len([r for r in w["ended"] if r in at])
+                if w["op"] == "race":
+                    d["races"] += 1
+                    r = w["rids"][0]
+                    if fin.get(r) == "ctx_error":
+                        d["race_waiter_got_error"] += 1
+                    elif r in w["entered"] or r in fin:
+                        d["race_waiter_took_slot"] += 1
                 for f in w["finished"]:
                     if f["class"] != "ctx_error":
                         k = "left_" + (commanded.get(f["rid"]) or CLS_OUTCOME.get(f["class"], "ok"))
                         d[k] = d.get(k, 0) + 1
+                prev_inside = len(w["inside"])
         return d
 
 
